@@ -251,6 +251,12 @@ func check(c Case) (o ev.Outcome) {
 			if e := oroot.Dir["older-only"]; e != nil {
 				starts = append(starts, e)
 			}
+			// a node whose statement stands in the submodule that only the older revision includes: its own-prefix
+			// paths lead into the older revision's tree, not into the one the bare module name denotes
+			ownStarts := append([]*yang.Entry(nil), starts...)
+			if e := oroot.Dir["oldsub-c"]; e != nil {
+				ownStarts = append(ownStarts, e) // the submodule's text imports nothing: own-prefix paths only
+			}
 			for _, im := range c.Set.OlderImports() {
 				tm := obs.MS.Modules[im.Module]
 				tt := trees[im.Module]
@@ -280,11 +286,16 @@ func check(c Case) (o ev.Outcome) {
 			}
 			// and its own nodes under its own prefix
 			mm := c.Set.Find(c.Set.Older)
-			if want := oroot.Dir["older-only"]; want != nil && mm != nil {
-				for _, st := range starts {
+			for _, name := range []string{"older-only", "oldsub-c", "older-only/from-oldsub"} {
+				want := walkTo(oroot, "/"+name)
+				if want == nil || mm == nil {
+					continue
+				}
+				p := "/" + mm.Prefix + ":" + strings.ReplaceAll(name, "/", "/"+mm.Prefix+":")
+				for _, st := range ownStarts {
 					lookups++
-					if got := st.Find("/" + mm.Prefix + ":older-only"); got != want {
-						fail("absolute-lookup", "absolute/from-older-revision/same-module", "from %s@2019-05-05 %s: Find(%q) returned %s, the node is %s", c.Set.Older, st.Path(), "/"+mm.Prefix+":older-only", desc(got), desc(want))
+					if got := st.Find(p); got != want {
+						fail("absolute-lookup", "absolute/from-older-revision/same-module", "from %s@2019-05-05 %s: Find(%q) returned %s, the node is %s", c.Set.Older, st.Path(), p, desc(got), desc(want))
 						return
 					}
 				}
